@@ -616,11 +616,44 @@ def run_e2e(ctx, host, nrelease, release, tooltags):
                     f["expr"] = tup(f["expr"])
         j["plat"] = tuple(j["plat"])
         j["flags"] = tuple(j["flags"])
+        for m in j.get("mutations", []):
+            m[1]["expr"] = tup(m[1]["expr"])
+        j["mutations"] = [tuple(m) for m in j.get("mutations", [])]
         jobs = [j]
 
-    def one(j):
-        proj = j["proj"]
-        res = {}
+    def layout_at(j, upto):
+        """(top, sub) after the first `upto` mutations of the job's history"""
+        top = {"id": -1, "mixed": False, "files": list(j["top"]["files"])}
+        sub = None if j["sub"] is None else {"id": -1, "mixed": False, "files": list(j["sub"]["files"])}
+        for where, f in j.get("mutations", [])[:upto]:
+            tgt = top if where == "top" else sub
+            tgt["files"] = sorted([x for x in tgt["files"] if x["name"] != f["name"]] + [f], key=lambda x: x["name"].encode())
+        return top, sub
+
+    def expect(top, sub, plat):
+        """the property sentence for a layout: (magefiles/ used?, {file name: target name} of the magefiles)"""
+        use_sub = sub is not None and not exp(top, plat, False)
+        d = sub if use_sub else top
+        want = exp(d, plat, use_sub)
+        return use_sub, {f["name"]: f["ident"].lower() for f in d["files"] if f["name"] in want}
+
+    def mage(proj, cache, args, env, timeout=180):
+        r = mg.run(proj, args, env=env, timeout=timeout, cache=cache)
+        if r["rc"] != 0:          # the go tool occasionally fails under heavy load (build cache races): once more before believing it
+            r = mg.run(proj, args, env=env, timeout=timeout, cache=cache)
+        return r
+
+    def run_job(j):
+        """builds the project in a fresh directory with a cache directory of its own and runs the job's steps"""
+        files = {f["name"]: f["text"] for f in j["top"]["files"]}
+        if j["sub"] is not None:
+            for f in j["sub"]["files"]:
+                files["magefiles/" + f["name"]] = f["text"]
+        with lock:
+            proj = mg.project(files, probe=False)
+        cache = proj + ".cache"
+        os.makedirs(cache, exist_ok=True)
+        res = {"proj": proj, "steps": []}
         if j["kind"] == "compile":
             out = os.path.join(proj, "out.bin")
             args = ["-compile", out]
@@ -628,103 +661,160 @@ def run_e2e(ctx, host, nrelease, release, tooltags):
                 args += ["-goos", j["flags"][0]]
             if j["flags"][1]:
                 args += ["-goarch", j["flags"][1]]
-            r = mg.run(proj, args, env=j["env"], timeout=600)
-            if r["rc"] != 0:      # the go tool occasionally fails under heavy load (build cache races): once more before believing it
-                r = mg.run(proj, args, env=j["env"], timeout=600)
-            res["rc"] = r["rc"]
+            r = mage(proj, cache, args, j["env"], timeout=600)
             # which files were compiled in: the binary's function-name table holds main.<Target> of every file used
             # (the targets are //go:noinline and reachable from the generated main); no wording of any message is read
             blob = open(out, "rb").read() if os.path.exists(out) else b""
             def compiled(d):
                 return sorted(f["name"] for f in d["files"] if re.search(rb"main\." + f["ident"].encode() + rb"(?![A-Za-z0-9_])", blob))
-            res["files"] = compiled(j["top"]) if blob else None
-            res["subfiles"] = compiled(j["sub"]) if blob and j["sub"] is not None else []
-            res["magic"] = blob[:4].hex() if blob else None
-            res["err"] = r["err"][-1500:] if r["rc"] != 0 else ""
-        else:
-            r = mg.run(proj, ["-l"], env=j["env"])
-            if r["rc"] != 0:
-                r = mg.run(proj, ["-l"], env=j["env"])
-            res["rc"] = r["rc"]
-            res["raw"] = {"stdout": r["out"][-1500:], "stderr": r["err"][-1500:]}      # kept in the replay file for diagnosis only
-            res["targets"] = sorted(projlib.parse_list(r["out"])["targets"])
-            res["warn"] = bool(r["err"].strip())      # some warning on stderr; its wording is not read
-            res["err"] = r["err"][-1500:] if r["rc"] != 0 else ""
-            res["wd"] = None
-            if r["rc"] == 0 and res["targets"]:
-                for _ in range(3):
-                    r2 = mg.run(proj, [res["targets"][0]], env=j["env"])
-                    m = re.search(r"^WD (.*)$", r2["out"], re.M)
-                    if m or r2["rc"] == 0:
-                        break
-                res["wd"] = os.path.realpath(m.group(1)) if m else "?" + r2["err"][-300:]
+            res["steps"].append({"step": "compile", "rc": r["rc"], "files": compiled(j["top"]) if blob else None,
+                                 "subfiles": compiled(j["sub"]) if blob and j["sub"] is not None else [], "magic": blob[:4].hex() if blob else None,
+                                 "raw": {"stdout": r["out"][-800:], "stderr": r["err"][-800:]}})
+            return res
+        nmut = 0
+        for st in j["history"]:
+            if st.get("mutate"):
+                where, f = j["mutations"][nmut]
+                nmut += 1
+                with open(os.path.join(proj, "magefiles" if where == "sub" else "", f["name"]), "w") as fh:
+                    fh.write(f["text"])
+            top, sub = layout_at(j, nmut)
+            use_sub, want = expect(top, sub, j["plat"])
+            env = dict(j["env"], **st.get("env", {}))
+            o = {"step": st["name"], "mutations": nmut}
+            if st["what"] == "list" or not want:
+                r = mage(proj, cache, st.get("flags", []) + ["-l"], env)
+                o["targets"] = sorted(projlib.parse_list(r["out"])["targets"])
+            else:
+                r = mage(proj, cache, st.get("flags", []) + [sorted(want.values())[0]], env)
+                m = re.search(r"^WD (.*)$", r["out"], re.M)
+                o["wd"] = os.path.realpath(m.group(1)) if m else None
+            o["rc"] = r["rc"]
+            o["warn"] = bool(r["err"].strip())          # some warning on stderr; its wording is not read
+            o["raw"] = {"stdout": r["out"][-800:], "stderr": r["err"][-800:]}   # kept in the replay file for diagnosis only
+            res["steps"].append(o)
         return res
 
-    for j in jobs:
-        files = {f["name"]: f["text"] for f in j["top"]["files"]}
-        if j["sub"] is not None:
-            for f in j["sub"]["files"]:
-                files["magefiles/" + f["name"]] = f["text"]
-        j["proj"] = mg.project(files, probe=False)
-    results = pmap(one, jobs, jobs=min(8, NCPU))
-    ditems, dmeta = [], []
-    for j, res in zip(jobs, results):
-        plat = j["plat"]
-        case = {"e2e": {k: j[k] for k in ("kind", "top", "sub", "env", "plat", "flags")}, "observed": {k: v for k, v in res.items() if k != "err"}, "project": j["proj"]}
-        ctx.add("e2e_" + j["kind"])
-        use_sub = j["sub"] is not None and not exp(j["top"], plat, False)
-        d = j["sub"] if use_sub else j["top"]
-        want = exp(d, plat, use_sub)
-        ident = {f["name"]: f["ident"].lower() for f in d["files"]}
-        bad = None
-        got_files = None
-        if not want:
-            # neither the directory nor a magefiles subdirectory provides a magefile: mage must say so
-            if res["rc"] == 0 or res.get("targets"):
-                bad = "no file of the project requires the mage tag, but mage exited %d using %s: %s" % (
-                    res["rc"], res.get("targets") or (res.get("files"), res.get("subfiles")), res["err"][-300:])
-        elif res["rc"] != 0:
-            bad = "mage failed (rc=%d): %s" % (res["rc"], res["err"][-400:])
-        elif j["kind"] == "compile":
-            magic = {"windows": "4d5a", "linux": "7f454c46", "darwin": "cffaedfe"}[plat[0]]
-            got_top, got_sub = res["files"], res["subfiles"]
-            exp_top, exp_sub = (set(), want) if use_sub else (want, set())
-            if got_top is None or set(got_top) != exp_top or set(got_sub) != exp_sub:
-                bad = "-compile %s for %s/%s compiled %s of the directory and %s of magefiles/, the property sentence says %s of the %s" % (
-                    " ".join(x for x in ("-goos " + j["flags"][0] if j["flags"][0] else "", "-goarch " + j["flags"][1] if j["flags"][1] else "") if x),
-                    plat[0], plat[1], got_top, got_sub, sorted(want), "magefiles subdirectory" if use_sub else "directory")
-            elif not (res["magic"] or "").startswith(magic):
-                bad = "-compile -goos %s -goarch %s produced a file starting with %s (expected %s)" % (j["flags"][0], j["flags"][1], res["magic"], magic)
-            got_files = res["subfiles"] if use_sub else res["files"]
+    def judge(j, res):
+        """(None or the failed clause, Coq items for the listings observed)"""
+        items = []
+        for o in res["steps"]:
+            top, sub = layout_at(j, o.get("mutations", 0))
+            plat = j["plat"]
+            use_sub, want = expect(top, sub, plat)
+            where = "magefiles subdirectory" if use_sub else "directory"
+            at = "step %s: " % o["step"] if len(res["steps"]) > 1 else ""
+            if o["step"] == "compile":
+                if not want:
+                    if o["rc"] == 0:
+                        return at + "no file of the project requires the mage tag for %s/%s, but -compile succeeded using %s / %s" % (plat[0], plat[1], o["files"], o["subfiles"]), items
+                    continue
+                if o["rc"] != 0:
+                    return at + "mage failed (rc=%d): %s" % (o["rc"], o["raw"]["stderr"][-400:]), items
+                magic = {"windows": "4d5a", "linux": "7f454c46", "darwin": "cffaedfe"}[plat[0]]
+                exp_top, exp_sub = (set(), set(want)) if use_sub else (set(want), set())
+                flags = " ".join(x for x in ("-goos " + j["flags"][0] if j["flags"][0] else "", "-goarch " + j["flags"][1] if j["flags"][1] else "") if x)
+                if o["files"] is None or set(o["files"]) != exp_top or set(o["subfiles"]) != exp_sub:
+                    return at + "-compile %s for %s/%s compiled %s of the directory and %s of magefiles/, the property sentence says %s of the %s" % (
+                        flags, plat[0], plat[1], o["files"], o["subfiles"], sorted(want), where), items
+                if not (o["magic"] or "").startswith(magic):
+                    return at + "-compile %s produced a file starting with %s (expected %s)" % (flags, o["magic"], magic), items
+                items.append((top, sub, bool(o["subfiles"]) and not o["files"], o["subfiles"] if use_sub else o["files"]))
+                continue
+            if not want:
+                # neither the directory nor a magefiles subdirectory provides a magefile: mage must say so
+                if o["rc"] == 0 or o.get("targets"):
+                    return at + "no file of the project requires the mage tag, but mage exited %d listing %s" % (o["rc"], o.get("targets")), items
+                continue
+            if o["rc"] != 0:
+                return at + "mage failed (rc=%d): %s" % (o["rc"], o["raw"]["stderr"][-400:]), items
+            if "targets" in o:
+                if o["targets"] != sorted(want.values()):
+                    return at + "`mage -l` lists %s, the magefiles %s define %s (%s used)" % (o["targets"], sorted(want), sorted(want.values()), where), items
+                if sub is not None and not use_sub and not o["warn"]:
+                    return at + "no warning although both the directory and its magefiles subdirectory hold magefiles", items
+                d = sub if use_sub else top
+                items.append((top, sub, use_sub, sorted(f["name"] for f in d["files"] if f["ident"].lower() in o["targets"])))
+            elif o["wd"] != os.path.realpath(res["proj"]):
+                return at + "target ran in %s, expected the %s %s" % (o["wd"], "parent of the magefiles directory" if use_sub else "directory", res["proj"]), items
+        return None, items
+
+    import threading
+    lock = threading.Lock()
+    HF = {"MAGEFILE_HASHFAST": "1"}
+    for n, j in enumerate(jobs):
+        if "history" in j:
+            continue
+        if j["kind"] == "compile":
+            j["history"] = []
+        elif j["kind"] != "layout":
+            j["history"] = [{"name": "list", "what": "list"}, {"name": "run", "what": "run"}]
         else:
-            wt = sorted(ident[n] for n in want)
-            got_files = sorted(n for n in ident if ident[n] in res["targets"])
-            if res["targets"] != wt:
-                bad = "`mage -l` lists %s, the magefiles %s define %s (%s used)" % (res["targets"], sorted(want), wt, "magefiles subdirectory" if use_sub else "directory")
-            elif res["wd"] != os.path.realpath(j["proj"]):
-                bad = "target ran in %s, expected the %s %s" % (res["wd"], "parent of the magefiles directory" if use_sub else "directory", j["proj"])
-            elif j["sub"] is not None and not use_sub and not res["warn"]:
-                bad = "no warning although both the directory and its magefiles subdirectory hold magefiles"
-        if bad:
-            if len(ctx.violations) < 8:
-                ctx.violation({"kind": "oracle", "clause": "end-to-end: " + bad}, case=case)
+            # a short history: the working directory and the files used must be the same function of the layout at every step
+            j["history"] = [{"name": "list", "what": "list"}, {"name": "run", "what": "run"},
+                            {"name": "run-again-hashfast", "what": "run", "env": HF}, {"name": "list-hashfast", "what": "list", "env": HF},
+                            {"name": "run-forced-hashfast", "what": "run", "env": HF, "flags": ["-f"]},
+                            {"name": "list-after-change", "what": "list", "mutate": True, "env": HF if n % 2 else {}},
+                            {"name": "run-after-change", "what": "run", "env": HF if n % 2 else {}},
+                            {"name": "run-after-change-again", "what": "run", "env": HF}]
+            k = n % 3
+            if k == 0 or j["sub"] is None and k == 1:
+                mut = ("top", e2e_file("zextra.go", ("tag", "mage"), "Zextra"))                  # a new tagged file in the directory itself
+            elif k == 1:
+                mut = ("sub", e2e_file("zmore.go", None, "Zmore"))                                # a new untagged file inside magefiles/
             else:
-                ctx.add("further_oracle_failures_not_written")
-        if got_files is not None and res["rc"] == 0:
+                pool = [("top", f) for f in j["top"]["files"]] + [("sub", f) for f in (j["sub"] or {"files": []})["files"]]
+                where, f = pool[n % len(pool)] if pool else ("top", e2e_file("zextra.go", ("tag", "mage"), "Zextra"))
+                mut = (where, dict(f, text=f["text"] + "\n// edited\n"))                         # the same layout, one file's content changed
+            j["mutations"] = [mut]
+
+    results = pmap(run_job, jobs, jobs=min(8, NCPU))
+    ditems, dmeta = [], []
+    unconfirmed = []
+    for j, res in zip(jobs, results):
+        ctx.add("e2e_" + j["kind"])
+        bad, items = judge(j, res)
+        case = {"e2e": {k: j[k] for k in ("kind", "top", "sub", "env", "plat", "flags", "history", "mutations") if k in j}, "observed": res["steps"], "project": res["proj"],
+                "repo": REPO}
+        if bad:
+            # a deterministic defect shows again in a fresh copy of the project (new directory, new cache); a one-off does not
+            again = [judge(j, run_job(j))[0] for _ in range(2)]
+            rep = [a for a in again if a]
+            if rep:
+                if len(ctx.violations) < 8:
+                    ctx.violation({"kind": "oracle", "clause": "end-to-end: " + bad, "reproduced": "%d of 2 fresh repetitions" % len(rep)}, case=case)
+                else:
+                    ctx.add("further_oracle_failures_not_written")
+            else:
+                unconfirmed.append({"clause": bad, "case": case})
+                ctx.log("UNCONFIRMED end-to-end deviation (not reproduced in 2 fresh repetitions): " + bad)
+            continue
+        for top, sub, used_sub, names in items:
             ditems.append("{| d_top := %s; d_sub := %s; d_has_sub := %s; d_top_named := false; d_hostos := %s; d_hostarch := %s; d_cgo := false; d_release := %s; d_tool := %s; "
                           "d_goos := %s; d_goarch := %s; d_obs := (%s, Some %s) |}" % (
-                              coq_list([file_coq(f) for f in j["top"]["files"]]), coq_list([file_coq(f) for f in (j["sub"] or {"files": []})["files"]]),
-                              coq_bool(j["sub"] is not None), coq_str(host[0]), coq_str(host[1]), coq_list([coq_str(t) for t in release]),
-                              coq_list([coq_str(t) for t in tooltags]), coq_str(j["flags"][0]), coq_str(j["flags"][1]),
-                              coq_bool(bool(res.get("wd")) and j["sub"] is not None and not res.get("warn")) if j["kind"] != "compile" else coq_bool(bool(res.get("subfiles")) and not res.get("files")),
-                              coq_list([coq_str(n) for n in sorted(got_files, key=lambda s: s.encode())])))
+                              coq_list([file_coq(f) for f in top["files"]]), coq_list([file_coq(f) for f in (sub or {"files": []})["files"]]),
+                              coq_bool(sub is not None), coq_str(host[0]), coq_str(host[1]), coq_list([coq_str(t) for t in release]),
+                              coq_list([coq_str(t) for t in tooltags]), coq_str(j["flags"][0]), coq_str(j["flags"][1]), coq_bool(used_sub),
+                              coq_list([coq_str(n) for n in sorted(names, key=lambda s: s.encode())])))
             dmeta.append(case)
+    if unconfirmed:
+        # kept visible: the evidence file and a file next to the replays hold the raw output of the run that deviated
+        ctx.coverage["unconfirmed_deviations"] = [u["clause"][:300] for u in unconfirmed]
+        ctx.notes.append("%d end-to-end deviation(s) were not reproduced in fresh repetitions and are not counted as violations; raw output in replays/C10-unconfirmed-*.json" % len(unconfirmed))
+        try:
+            os.makedirs(os.path.join(VERIF, "replays"), exist_ok=True)
+            for u in unconfirmed:
+                with open(os.path.join(VERIF, "replays", "C10-unconfirmed-%s.json" % case_hash(u)[:12]), "w") as fh:
+                    json.dump(dict(u, property="C10", seed=ctx.seed, tier=ctx.tier, failing_input_found=False), fh, indent=1, default=str)
+        except OSError:
+            pass
     if ditems:
         mism = ctx.coq_eval_shards("cases_C10_e2e", HEADER + "Definition mismatches := dmismatches.\n", ditems, per_shard=100)
         if mism and not ctx.violations:
             idx, body = mism[0]
             ctx.violation({"kind": "model-vs-implementation", "correspondence": "Run/eval_C10.dmismatches", "model_says": body[:400]}, case=dmeta[idx], found_input=False)
         ctx.coverage["e2e_model_mismatches"] = len(mism)
+    ctx.coverage["e2e_steps"] = sum(len(r["steps"]) for r in results)
     return len(jobs)
 
 
@@ -732,6 +822,7 @@ def run_e2e(ctx, host, nrelease, release, tooltags):
 def run(ctx):
     ctx.prove(["Props/C10.vo", "Run/eval_C10.vo"])
     import extractlib; extractlib.tables_tie(ctx, ['MagefilesDirName'])   # literal data of the source re-proved equal to the models' (DESIGN 3.5)
+    extractlib.fn_tie(ctx, ['filter'])   # pure functions translated from the current source, re-proved equal to the models' (tools/notes/Translator.md)
     ctx.trusted_base += [
         "harness/unitrun ops magefiles, buildctx (in-process call of mage.Magefiles; report of go/build's build.Default)",
         "checks/c10.py (directory generator, Coq printer, oracle, known-finding classifier)",
